@@ -20,12 +20,16 @@ import (
 
 	goahttp "goa.design/goa/v3/http"
 	goa "goa.design/goa/v3/pkg"
+	"goa.design/goa/v3/security"
 	"goa.design/goa/v3/verifsim"
 	"verif/sim/engine"
 	"verif/sim/gen"
 	"verif/sim/simnet"
 	"verif/sim/spec"
+	"verif/sim/strgen"
 )
+
+func strgenNstr(t *verifsim.Tape) string { return strgen.Nstr(t, strgen.Letdig+"._-", 1, 8) }
 
 var designCache = map[string]*spec.Design{}
 
@@ -41,7 +45,7 @@ func loadDesign(name string) (*spec.Design, error) {
 }
 
 func init() {
-	for _, p := range []string{"C02", "C03", "C04", "C05"} {
+	for _, p := range []string{"C02", "C03", "C04", "C05", "C06"} {
 		p := p
 		engine.Register(p, func(t *verifsim.Tape, cfg engine.Config) *engine.Outcome { return runExchange(t, cfg, p) })
 	}
@@ -62,7 +66,7 @@ type world struct {
 	view   string
 	err    error
 	authLog []authCall
-	authErr map[string]error
+	reject  map[string]bool
 	// errors the generated handler gave up on (passed to the error handler a user supplies to New)
 	unhandled []error
 }
@@ -111,7 +115,39 @@ func findMethod(s *spec.Service, goName string) *spec.Method {
 
 func (w *world) auth(ctx context.Context, svc, kind string, scheme any, creds []string) (context.Context, error) {
 	w.authLog = append(w.authLog, authCall{kind, scheme, creds})
+	name := schemeName(scheme)
+	if w.reject[name] {
+		return ctx, goa.PermanentError("unauthorized", "rejected by %s (call %d)", name, len(w.authLog))
+	}
 	return ctx, nil
+}
+
+func schemeName(scheme any) string {
+	switch s := scheme.(type) {
+	case *security.BasicScheme:
+		return s.Name
+	case *security.APIKeyScheme:
+		return s.Name
+	case *security.JWTScheme:
+		return s.Name
+	case *security.OAuth2Scheme:
+		return s.Name
+	}
+	return "?"
+}
+
+func schemeScopes(scheme any) (declared, required []string) {
+	switch s := scheme.(type) {
+	case *security.BasicScheme:
+		return s.Scopes, s.RequiredScopes
+	case *security.APIKeyScheme:
+		return s.Scopes, s.RequiredScopes
+	case *security.JWTScheme:
+		return s.Scopes, s.RequiredScopes
+	case *security.OAuth2Scheme:
+		return s.Scopes, s.RequiredScopes
+	}
+	return nil, nil
 }
 
 // locOf tells where a top-level payload attribute travels.
@@ -145,6 +181,12 @@ func genPayload(t *verifsim.Tape, d *spec.Design, m *spec.Method) any {
 	obj := map[string]any{}
 	for _, f := range pt.Fields {
 		loc := locOf(m, f.Name)
+		if f.Sec != "" {
+			// credentials: outside C06 they are plain, always set, prefix-free tokens
+			// (what C06 learns about spaces and prefixes is judged there)
+			obj[f.Name] = "cred-" + strgenNstr(t)
+			continue
+		}
 		present := f.Required || f.HasDef || t.Draw("present", 100) < 60
 		if gen.MustBeSet(d, f) && !f.Required {
 			present = t.Draw("leave-minlen-collection-unset", 8) != 7
@@ -260,6 +302,12 @@ func runExchange(t *verifsim.Tape, cfg engine.Config, prop string) *engine.Outco
 		payload := genPayload(t, d, m)
 		result := genResult(t, d, m, resp)
 		mode := "valid"
+		w.reject = map[string]bool{}
+		var secPlan *secExpect
+		if prop == "C06" {
+			secPlan = planSecurity(t, d, s, m, payload, w.reject)
+			mode = "security:" + secPlan.class
+		}
 		var brokenSite *gen.Site
 		var scriptErr error
 		var wantErr *spec.ErrorDef
@@ -391,7 +439,7 @@ func runExchange(t *verifsim.Tape, cfg engine.Config, prop string) *engine.Outco
 			}
 			goPayload = pv.Interface()
 		}
-		w.invoked, w.unhandled = nil, nil
+		w.invoked, w.unhandled, w.authLog = nil, nil, nil
 		w.result, w.view, w.err = nil, "", scriptErr
 		if m.Result != nil && mh.Result != nil && scriptErr == nil {
 			rv, err := gen.ToGo(d, result, m.Result.Type, mh.Result)
@@ -461,6 +509,10 @@ func runExchange(t *verifsim.Tape, cfg engine.Config, prop string) *engine.Outco
 		if c := classifyFailureAny(d, m, payload, result, ex); c != "" && mode != "valid" && mode != "boundary-ok" {
 			// a defect class that already has its own signature got in the way of this exchange
 			o.Violate("valid_request_failed", "valid_failed:"+c, "%s: %s (mode %s, payload %s, status %d, body %q)", where, c, mode, gen.Show(payload), ex.Status, clipS(string(ex.RespBody)))
+			continue
+		}
+		if secPlan != nil {
+			judgeSecurity(o, w, d, s, m, ex, secPlan, cerr, where)
 			continue
 		}
 		switch mode {
@@ -854,4 +906,227 @@ func panicClass(p string, ex *simnet.Exchange) string {
 		f = ex.RespFault
 	}
 	return f + ":" + fn
+}
+
+
+// ---------------------------------------------------------------------------
+// C06: security requirements
+// ---------------------------------------------------------------------------
+
+type secCall struct {
+	scheme   string
+	kind     string
+	creds    []string
+	declared []string
+	required []string
+}
+
+type secExpect struct {
+	class   string
+	calls   []secCall // callbacks expected, in order
+	invoked bool
+}
+
+var tokenPool = []string{"abc.def.ghi", "t0k3n", "Bearer abc.def", "bearer xyz", "é世-token", "a:b;c=d", "x+y/z==", "Basic notbasic"}
+var keyPool = []string{"k3y", "secret key", "é世", "a:b", "x+y/z==", "key with two spaces", "Bearer looks-like-a-token"}
+var userPool = []string{"alice", "bob smith", "é世", "u+1", "Al/ice"}
+var passPool = []string{"s3cret", "p:a:ss", "pass word", "é世&=", ""}
+
+// planSecurity installs credentials in the payload (model form), draws the
+// accept/reject vector and computes the expected callback sequence.
+func planSecurity(t *verifsim.Tape, d *spec.Design, s *spec.Service, m *spec.Method, payload any, reject map[string]bool) *secExpect {
+	e := &secExpect{class: "none"}
+	reqs := gen.Effective(d, s, m)
+	obj, _ := payload.(map[string]any)
+	if m.NoSec {
+		e.class = "no-security"
+	}
+	if len(reqs) == 0 || obj == nil {
+		e.invoked = true
+		if len(d.Schemes) > 0 && !m.NoSec {
+			e.class = "unsecured"
+		}
+		return e
+	}
+	e.class = fmt.Sprintf("reqs=%d", len(reqs))
+	pt := d.Resolve(m.Payload.Type)
+	for _, sc := range d.Schemes {
+		reject[sc.Name] = t.Draw("reject-"+sc.Kind, 5) < 2
+	}
+	// credentials as the caller sets them
+	for _, f := range pt.Fields {
+		if f.Sec == "" {
+			continue
+		}
+		set := f.Required || t.Draw("cred-set", 4) != 0
+		if !set {
+			delete(obj, f.Name)
+			continue
+		}
+		switch {
+		case f.Sec == "username":
+			obj[f.Name] = userPool[t.Draw("user", len(userPool))]
+		case f.Sec == "password":
+			obj[f.Name] = passPool[t.Draw("pass", len(passPool))]
+		case strings.HasPrefix(f.Sec, "apikey:"):
+			obj[f.Name] = keyPool[t.Draw("key", len(keyPool))]
+		default:
+			obj[f.Name] = tokenPool[t.Draw("token", len(tokenPool))]
+		}
+		if f.Required && obj[f.Name] == "" {
+			obj[f.Name] = "x"
+		}
+	}
+	// Basic credentials travel together: SetBasicAuth needs both
+	var uf, pf *spec.Attr
+	for _, f := range pt.Fields {
+		if f.Sec == "username" {
+			uf = f
+		}
+		if f.Sec == "password" {
+			pf = f
+		}
+	}
+	if uf != nil && pf != nil && (obj[uf.Name] == nil) != (obj[pf.Name] == nil) {
+		if obj[uf.Name] == nil {
+			obj[uf.Name] = "alice"
+		} else {
+			obj[pf.Name] = "s3cret"
+		}
+	}
+	cred := func(sc *spec.Scheme) []string {
+		str := func(name string) string {
+			if v, ok := obj[name].(string); ok {
+				return v
+			}
+			return ""
+		}
+		for _, f := range pt.Fields {
+			switch {
+			case sc.Kind == "basic" && f.Sec == "username":
+				return []string{str(uf.Name), str(pf.Name)}
+			case sc.Kind == "apikey" && f.Sec == "apikey:"+sc.Name:
+				return []string{str(f.Name)}
+			case (sc.Kind == "jwt" && f.Sec == "token") || (sc.Kind == "oauth2" && f.Sec == "accesstoken"):
+				v := str(f.Name)
+				if _, inHeader := m.Headers[f.Name]; inHeader {
+					if i := strings.Index(v, " "); i >= 0 {
+						v = v[i+1:] // scheme prefix removed
+					}
+				}
+				return []string{v}
+			}
+		}
+		return []string{"?"}
+	}
+	for _, r := range reqs {
+		ok := true
+		for _, sn := range r.Schemes {
+			var sc *spec.Scheme
+			for _, x := range d.Schemes {
+				if x.Name == sn {
+					sc = x
+				}
+			}
+			e.calls = append(e.calls, secCall{scheme: sn, kind: sc.Kind, creds: cred(sc), declared: sc.Scopes, required: r.Scopes})
+			if reject[sn] {
+				ok = false
+				break
+			}
+		}
+		if ok {
+			e.invoked = true
+			break
+		}
+	}
+	return e
+}
+
+func sameStrings(a, b []string) bool {
+	if len(a) != len(b) {
+		return false
+	}
+	for i := range a {
+		if a[i] != b[i] {
+			return false
+		}
+	}
+	return true
+}
+
+func judgeSecurity(o *engine.Outcome, w *world, d *spec.Design, s *spec.Service, m *spec.Method, ex *simnet.Exchange, e *secExpect, cerr error, where string) {
+	o.Features["c06_"+e.class]++
+	if c := classifyFailureAny(d, m, nil, nil, ex); c != "" {
+		return
+	}
+	if len(w.invoked) == 0 && ex.Status >= 400 && ex.Status != 400 {
+		// some other refusal (404 from a path value with '/'): not about security
+		o.Features["c06_refused_for_other_reasons"]++
+		return
+	}
+	got := w.authLog
+	desc := func() string {
+		var b []string
+		for _, c := range got {
+			b = append(b, fmt.Sprintf("%s(%q)", schemeName(c.scheme), c.creds))
+		}
+		return strings.Join(b, " ")
+	}
+	want := func() string {
+		var b []string
+		for _, c := range e.calls {
+			b = append(b, fmt.Sprintf("%s(%q)", c.scheme, c.creds))
+		}
+		return strings.Join(b, " ")
+	}
+	if len(got) == 0 && len(e.calls) > 0 && len(w.invoked) == 0 && ex.Status == 400 {
+		// refused before any callback: a required credential judged missing by the decoder
+		var er goahttp.ErrorResponse
+		json.Unmarshal(ex.RespBody, &er)
+		o.Features["c06_refused_by_decoder_"+er.Name]++
+		if er.Name != "missing_field" {
+			o.Violate("security_refused", "security_refused:"+er.Name, "%s: refused before any callback with %q (%s)", where, er.Name, er.Message)
+		}
+		return
+	}
+	if e.invoked != (len(w.invoked) == 1) {
+		o.Violate("security_gate", fmt.Sprintf("security_gate:expected_invoked=%v", e.invoked), "%s: user code ran=%v, the requirements say %v; reject vector %v; callbacks seen: %s; expected: %s", where, len(w.invoked) == 1, e.invoked, w.reject, desc(), want())
+		return
+	}
+	if len(got) != len(e.calls) {
+		o.Violate("security_callbacks", "security_callbacks:count", "%s: callbacks seen: %s; expected: %s (reject vector %v)", where, desc(), want(), w.reject)
+		return
+	}
+	for i, c := range e.calls {
+		g := got[i]
+		if schemeName(g.scheme) != c.scheme || g.kind != c.kind {
+			o.Violate("security_callbacks", "security_callbacks:order", "%s: callback %d is %s, expected %s; seen %s expected %s", where, i, schemeName(g.scheme), c.scheme, desc(), want())
+			return
+		}
+		if !sameStrings(g.creds, c.creds) {
+			loc := "query"
+			for _, f := range d.Resolve(m.Payload.Type).Fields {
+				if _, ok := m.Headers[f.Name]; ok && f.Sec != "" && (strings.HasPrefix(f.Sec, "apikey:"+c.scheme) || c.kind == "jwt" && f.Sec == "token" || c.kind == "oauth2" && f.Sec == "accesstoken") {
+					loc = "header"
+				}
+			}
+			space := ""
+			if len(c.creds) > 0 && strings.Contains(c.creds[0], " ") {
+				space = ",contains-space"
+			}
+			o.Violate("security_credential", fmt.Sprintf("security_credential:%s:in=%s%s", c.kind, loc, space), "%s: %s callback received %q, the client was given %q", where, c.scheme, g.creds, c.creds)
+			return
+		}
+		dec, req := schemeScopes(g.scheme)
+		if !sameStrings(dec, c.declared) && !(len(dec) == 0 && len(c.declared) == 0) || !sameStrings(req, c.required) && !(len(req) == 0 && len(c.required) == 0) {
+			o.Violate("security_scopes", "security_scopes:"+c.kind, "%s: %s callback received scopes %v required %v, design says %v required %v", where, c.scheme, dec, req, c.declared, c.required)
+			return
+		}
+	}
+	if !e.invoked {
+		var er goahttp.ErrorResponse
+		if err := json.Unmarshal(ex.RespBody, &er); err != nil || er.Name != "unauthorized" || !strings.Contains(er.Message, fmt.Sprintf("(call %d)", len(got))) || cerr == nil {
+			o.Violate("security_error", "security_error", "%s: every requirement failed; the client got %v, body %q; want the last callback's error (unauthorized, call %d)", where, cerr, clipS(string(ex.RespBody)), len(got))
+		}
+	}
 }
